@@ -14,6 +14,7 @@ pub mod futex;
 pub mod stats;
 
 pub mod c41;
+pub mod c42;
 pub mod c43;
 pub mod world;
 
@@ -35,6 +36,7 @@ impl Scenario {
 pub fn scenarios(model: &str, params: &[i64]) -> Option<Vec<Scenario>> {
     match model {
         "c41" => Some(c41::scenarios(params)),
+        "c42" => Some(c42::scenarios(params)),
         "c43" => Some(c43::scenarios(params)),
         "c44" => Some(crate::memory::verif_c44::scenarios(params)),
         _ => None,
